@@ -2,8 +2,11 @@ package main
 
 import (
 	"fmt"
+	"go/ast"
 	"go/constant"
+	"go/types"
 	"regexp"
+	"sort"
 	"strings"
 
 	"golang.org/x/tools/go/ssa"
@@ -225,6 +228,83 @@ func runC06(c *Ctx) {
 		have := strings.Join(structFieldNames(sp, "Error"), ",")
 		want := "Err,ErrorToken,ErrorSymbols,ExpectedTokens,StackTop"
 		c.Ob("R06.2", "errors.Error fields", have == want, "fields "+have+"; required "+want)
+		// R06.4: looking at the error does not change it. The value names the offending token and the expected
+		// terminals for as long as the caller holds it: no function of the errors package may write through a
+		// parameter (a store, a copy, or an append into a slice reached from it — ErrorToken.Lit is a window
+		// of the caller's input), except a helper that is only ever given memory its caller has just made.
+		nFn, nMut := 0, 0
+		seen := map[string]bool{}
+		var fns []*ssa.Function
+		var collect func(f *ssa.Function)
+		collect = func(f *ssa.Function) {
+			if f == nil || f.Blocks == nil || f.Pkg != sp || seen[f.String()] {
+				return
+			}
+			seen[f.String()] = true
+			fns = append(fns, f)
+			for _, a := range f.AnonFuncs {
+				collect(a)
+			}
+		}
+		for _, m := range sp.Members {
+			switch x := m.(type) {
+			case *ssa.Function:
+				collect(x)
+			case *ssa.Type:
+				for _, T := range []types.Type{x.Type(), types.NewPointer(x.Type())} {
+					ms := p.SSA.MethodSets.MethodSet(T)
+					for i := 0; i < ms.Len(); i++ {
+						collect(p.SSA.MethodValue(ms.At(i)))
+					}
+				}
+			}
+		}
+		sortFuncs(fns)
+		for _, f := range fns {
+			if f.Name() == "init" || f.Synthetic != "" {
+				continue
+			}
+			nFn++
+			mp := mutatedParams(f)
+			if len(mp) == 0 {
+				continue
+			}
+			// the helper may edit what it is given if every caller in the package hands it fresh memory
+			fresh := true
+			nCallers := 0
+			for _, g := range fns {
+				for _, b := range g.Blocks {
+					for _, in := range b.Instrs {
+						call, ok := in.(*ssa.Call)
+						if !ok || call.Call.StaticCallee() != f {
+							continue
+						}
+						nCallers++
+						for i := range mp {
+							if i < len(call.Call.Args) && !locallyAllocated(call.Call.Args[i], map[ssa.Value]bool{}) {
+								fresh = false
+							}
+						}
+					}
+				}
+			}
+			exported := ast.IsExported(f.Name())
+			okf := fresh && nCallers > 0
+			if !okf {
+				nMut++
+			}
+			var idx []int
+			for i := range mp {
+				idx = append(idx, i)
+			}
+			sort.Ints(idx)
+			c.Ob("R06.4", "errors."+f.Name()+" writes through a parameter", okf,
+				fmt.Sprintf("parameter(s) %v of %s may be written (store / copy / append into memory reached from it); %d call(s) inside the package, all with freshly allocated memory: %v; exported: %v. Required: rendering or describing an error leaves the error, its token and the caller's input as they are", idx, f.Name(), nCallers, fresh, exported), p.FnPos(f))
+		}
+		c.Ob("R06.4", "errors package: no function changes what it is shown", nMut == 0, fmt.Sprintf("%d functions and methods of the generated errors package examined; %d write through a parameter that is not fresh memory", nFn, nMut))
+		if nFn < 3 {
+			c.Undecided("R06.4", "vacuity", fmt.Sprintf("only %d functions of the errors package seen", nFn))
+		}
 	}
 	c.Assumptions = append(c.Assumptions, "the action rows contain exactly the viable terminals: canonical LR(1) construction (C02) — NOT decided")
 	c.Trusted = append(c.Trusted, "go/ssa", "checker/sx.go")
